@@ -11,8 +11,12 @@ use std::io::Write;
 use std::process::{Command, Stdio};
 use std::sync::atomic::{AtomicU64, Ordering};
 
-pub const BIN: &str = "/verif/target/cli/release/chiritori";
-const TMP_ROOT: &str = "/verif/target/tmp";
+pub fn bin() -> String {
+    format!("{}/target/cli/release/chiritori", crate::report::verif_dir())
+}
+fn tmp_root() -> String {
+    format!("{}/target/tmp", crate::report::verif_dir())
+}
 
 #[derive(Debug, Clone, PartialEq)]
 pub struct CliCase {
@@ -118,7 +122,7 @@ pub struct WorkDir {
 impl WorkDir {
     pub fn new() -> WorkDir {
         let n = DIR_CTR.fetch_add(1, Ordering::Relaxed);
-        let path = format!("{TMP_ROOT}/run-{}-{}", std::process::id(), n);
+        let path = format!("{}/run-{}-{}", tmp_root(), std::process::id(), n);
         let _ = std::fs::create_dir_all(&path);
         WorkDir { path }
     }
@@ -141,7 +145,7 @@ pub fn run_binary(c: &CliCase, wd: &WorkDir) -> Result<RunOut, String> {
     let outp = format!("{}/out.txt", wd.path);
     let tgt = format!("{}/targets.txt", wd.path);
     let _ = std::fs::remove_file(&outp);
-    let mut cmd = Command::new(BIN);
+    let mut cmd = Command::new(bin());
     cmd.env_clear();
     cmd.env("PATH", "/usr/bin:/bin");
     cmd.env("LC_ALL", &c.lc_all);
@@ -202,7 +206,7 @@ pub fn run_binary(c: &CliCase, wd: &WorkDir) -> Result<RunOut, String> {
     }
     cmd.stdout(Stdio::piped()).stderr(Stdio::piped());
     cmd.stdin(if c.stdin { Stdio::piped() } else { Stdio::null() });
-    let mut child = cmd.spawn().map_err(|e| format!("harness: cannot spawn {BIN}: {e}"))?;
+    let mut child = cmd.spawn().map_err(|e| format!("harness: cannot spawn {}: {e}", bin()))?;
     if c.stdin {
         let mut si = child.stdin.take().unwrap();
         let _ = si.write_all(c.src.as_bytes());
@@ -308,8 +312,8 @@ struct W<'r> {
 }
 
 pub fn run(r: &Report) {
-    if !std::path::Path::new(BIN).exists() {
-        r.machinery_failure(format!("{BIN} not built"));
+    if !std::path::Path::new(&bin()).exists() {
+        r.machinery_failure(format!("{} not built", bin()));
         return;
     }
     r.set_rule("every combination of: document (4 hand-written incl. one whose markers are named after every default string; thorough adds AST-generated ones) x mode {clean, --list, --list-all, --list --list-json, --list-all --list-json} x input {--filename, stdin pipe} x output {stdout, --output new file, --output = input file} x delimiters {default, custom} x tag names {default, custom} x offset {default, +09:00} x current time {2 RFC 3339 instants} x targets {none, flags, config file, both, file with trailing empty line} x TZ {UTC, Asia/Tokyo, America/Los_Angeles, unset} x LC_ALL {C, ja_JP.UTF-8} (quick: TZ in {UTC, Asia/Tokyo, unset}, locale C, the 4 hand-written documents); oracle: bytes produced == in-process library result for the documented defaults, exit 0, stdout empty with --output; non-trivial = distinct runs whose expected output differs from the input (clean) or is a non-empty list");
@@ -551,8 +555,8 @@ fn ast_docs(n: usize) -> Vec<String> {
 // ---- C06's command-line rows ------------------------------------------------------------------
 
 pub fn marker_rows(r: &Report) {
-    if !std::path::Path::new(BIN).exists() {
-        r.machinery_failure(format!("{BIN} not built"));
+    if !std::path::Path::new(&bin()).exists() {
+        r.machinery_failure(format!("{} not built", bin()));
         return;
     }
     let pool = crate::props::marker::NAME_POOL;
